@@ -1082,7 +1082,7 @@ def search(ctx, hints, broken):
     if "kind" in h and "input" in h:
       n += 1
       r = oracle(h["kind"], h["input"])
-      if r:
+      if r and r["signature"] not in {x["signature"] for x in fails}:
         fails.append(r)
   budget = ctx.n(4000, 40000) * (2 if broken else 1)
   rng = ctx.rng
